@@ -259,3 +259,7 @@ Proof.
   f_equal; [|ring].
   replace (n1 * 1024 * d2) with (n1 * d2 * 1024) by ring. rewrite Heq. ring.
 Qed.
+
+(* what same_votes says: exactly m1 = m2 (audit 3, defect A4) *)
+Lemma same_votes_is_eq m1 m2 : same_votes m1 m2 <-> m1 = m2.
+Proof. split; [intros [H _]; exact H | intros ->; repeat split; reflexivity]. Qed.
